@@ -294,7 +294,8 @@ def sort_key_values(cfg: dict, flt: dict, yo: np.ndarray, yc: np.ndarray | None)
         sort = list(flt["options"]["sort"])
         ow = model.objective_weights(cfg)
         if ow.size > 1:
-            return np.nan_to_num(yo[:, sort]) @ ow[sort]
+            # (summed realization by realization: equal rows give equal sums, see fix 4a1e1b5)
+            return (np.nan_to_num(yo[:, sort]) * ow[sort]).sum(axis=-1)
         return np.nan_to_num(yo[:, sort]).reshape(-1)
     return np.nan_to_num(yc[:, int(flt["options"]["sort"])])
 
